@@ -190,6 +190,9 @@ fn run_receive(ctx: &RunCtx) -> RunOut {
                         let k = (resolver.frame_stream.id().into_inner() >> 2) as usize;
                         let rec = rec.clone();
                         exec::spawn(format!("req{k}"), async move {
+                            // the client's limit as this endpoint knows it when the application asks for the request
+                            // (the settings cell is write-once: what is in force now stays in force)
+                            rec.borrow_mut()[k].limit_before = resolver.settings().verif_max_field_section_size();
                             match resolver.resolve_request().await {
                                 Err(e) => rec.borrow_mut()[k].headers = Some(Err(sout(&e))),
                                 Ok((_r, mut s)) => {
@@ -354,7 +357,12 @@ fn run_receive(ctx: &RunCtx) -> RunOut {
                     if can && st.as_deref() != Some("431") {
                         return mk("C10.no_431", format!("oversized request refused without a 431 response on the wire (status {:?})", st));
                     }
-                    if !can && st.is_some() && peer_limit_applied_certainly(&n) {
+                    // the scripted peer's SETTINGS were written before anything else, but whether h3 had applied them
+                    // when it answered is schedule dependent: certain only if they were in force before the call
+                    if !can && o[0].limit_before == peer_limit {
+                        obs::count("probe.oversized_request_while_client_limit_below_431_in_force");
+                    }
+                    if !can && st.is_some() && o[0].limit_before == peer_limit {
                         return mk("C10.sent_431_over_peer_limit", format!("a 431 response (size 42) was sent although the client's limit is {peer_limit}"));
                     }
                 }
@@ -392,11 +400,6 @@ fn run_receive(ctx: &RunCtx) -> RunOut {
     out
 }
 
-/// the scripted peer's SETTINGS were written before anything else, but whether h3 had applied them when
-/// it answered 431 is schedule dependent; only claim certainty in the sequentially obvious case
-fn peer_limit_applied_certainly(_n: &Net) -> bool {
-    false
-}
 
 fn panic_out(ex: &Exec, id: &str) -> Option<RunOut> {
     ex.panic.as_ref().map(|p| {
